@@ -1,6 +1,6 @@
 """C04 — direct mode never answers for changed inputs.  Proof: Props/C04.lean (finder_sound over all splits; manifest_hit_sound_partial
 over all option combinations and file-system evolutions); tie: h_c04 finder/manifest + modeld finder/manifest; monitors on the real code."""
-import json, os
+import json, os, re
 from vlib import *
 from checks import sysmon
 
@@ -24,19 +24,39 @@ def run(ctx):
         ctx.evaluations += s['cases']; ctx.distinct_nontrivial += s['distinct_nontrivial']; ctx.samples += s['samples'][:2]
         ctx.cov[mode] = {k: v for k, v in s.items() if k not in ('monitor_failures', 'samples')}
         monitor_failures(ctx, s['monitor_failures'], findings, f'h_c04 {mode} monitor', to_replay)
+    if cargo_harness(ctx, ['h_recorder']):
+        # second tier: the include recorder (hook H2) on generated line-marker texts over a real directory tree
+        n = 3000 if ctx.quick() else 80000
+        rc, out, dt = sh([harness_bin('h_recorder'), str(n), f'{w}/rec', f'{w}/rec.trace', f'{w}/rec.json'], env=e, timeout=7200)
+        if rc != 0: ctx.broken.append('h_recorder crashed: ' + out[-300:])
+        else:
+            s = json.load(open(f'{w}/rec.json'))
+            with open(f'{w}/rec.trace') as f: rc, out, dt = sh([MODELD, 'recorder'], stdin=f)
+            m = re.search(r'cases: (\d+) mismatches: (\d+)', out)
+            if not m: ctx.broken.append('correspondence recorder: modeld recorder failed: ' + out[-300:])
+            else:
+                ctx.cov.setdefault('correspondence', {})['recorder'] = {'model': 'recorder', 'cases': int(m.group(1)), 'mismatches': int(m.group(2))}
+                if int(m.group(2)): ctx.broken.append('correspondence recorder: process_preprocessed_file / remember_include_file differ from RecM.processPreprocessedFile on %s of %s texts: %s' % (m.group(2), m.group(1), out[:700].replace('\n', ' ')))
+            ctx.evaluations += s['cases']; ctx.distinct_nontrivial += s['distinct_nontrivial']; ctx.samples += s['samples'][:1]
+            ctx.cov['recorder'] = {k: v for k, v in s.items() if k not in ('monitor_failures', 'samples')}
+            monitor_failures(ctx, s['monitor_failures'], findings, 'h_recorder monitor', lambda fl: ('monitor-' + fl['kind'], ['preprocessor output text, options, and the `modeld recorder` protocol line (cfg, cwd, input, text, world, result); harness/src/bin/h_recorder.rs', 'observed: ' + fl['detail']], '\n'.join(fl['ops'])))
     if cargo_repo_bins(ctx, ('sccache', 'sccache-dist')):
+        for cc in ('/usr/bin/gcc', '/usr/bin/clang'):
+            res = sysmon.st.run_direct_mode_layouts(sysmon.sysroot(ctx, 'c04'), 'c04l' + os.path.basename(cc), cc)
+            sysmon.feed(ctx, res, findings, f'system direct mode path layouts {os.path.basename(cc)}')
         for cc, nh in (('/usr/bin/gcc', 6 if ctx.quick() else 60), ('/usr/bin/clang', 3 if ctx.quick() else 30)):
             res = sysmon.st.run_direct_mode_histories(sysmon.sysroot(ctx, 'c04'), 'c04' + os.path.basename(cc), cc, ctx.seed * 31, nh, 8 if ctx.quick() else 20)
             sysmon.feed(ctx, res, findings, f'system direct mode {os.path.basename(cc)}')
     ctx.rules.append('system: preprocessor-cache mode with random option combinations (stat matching, ctime, skip system headers, hash cwd) through a config file, include directories whose names hold digits / spaces, '
-                     '-isystem header; same-size / size-changing / touch / delete+recreate / mtime-restored edits of every header, each request compared with a direct compile; ')
+                     '-isystem header; scripted path layouts first (parent-directory include dir with a shadow file below the cwd, two levels up, `link/../h.h` through a symlinked directory); same-size / size-changing / touch / delete+recreate / mtime-restored edits of every header, each request compared with a direct compile; ')
     ctx.rules.append('finder: texts built from whole and broken macro fragments x read splits biased to sizes 1-3, 11-15, 13, 26 (non-trivial = distinct split of a text that holds a macro); '
                      'manifest: 1-3 real header files x 8 option combinations x {none, same-size edit, size edit, edit with restored mtime, touch, delete, rewrite} per header, times recorded or not '
                      '(non-trivial = distinct case in which some header changed)')
     ctx.assumptions += ['a change to a file sets its ctime to the kernel clock, which is monotone (hypothesis EvolvedSince of the theorem)',
                         'kernel timestamp granularity: a header modified in the same clock tick as the compile start is outside the model',
                         'BLAKE3 content digests identify contents (collisions aside)']
-    ctx.notes.append('not yet modelled: the include recorder (process_preprocessed_file / remember_include_file) and the line-marker scanner')
+    ctx.rules.append('recorder: 1-7 lines per text from {well-formed line markers x 60 path spellings (relative, ./, //, .., absolute, trailing slash, <pseudo>, missing, non-UTF-8, directory, fifo, too-new, __TIME__) x 9 flag suffixes x 6 line numbers, gcc-6 #31/#32 lines, pch pragma, #line, .incbin, distcc-pump banner, malformed / unterminated markers, noise}; half of the texts well-formed only; 1 in 16 goes through a symlinked directory (monitor only)')
+    ctx.notes.append('recorder tie: directory symlinks are outside the model world (F-C04-d is found by the monitor, not by the model); unreadable headers (open failing) cannot be produced as root')
 
 def replay(ctx, path):
     if not cargo_harness(ctx, ['h_c04']): return 2
